@@ -211,6 +211,7 @@ func (r *Run) Explore(part, bound string, o mc.Opts, body func(*mc.Ctx)) mc.Stat
 	}
 	t0 := time.Now()
 	o.OnHang = r.onHang(part)
+	r.stopRule(&o)
 	st := mc.Explore(o, body)
 	r.account(part, bound, o, st, t0, body)
 	return st
@@ -238,6 +239,11 @@ func (r *Run) account(part, bound string, o mc.Opts, st mc.Stats, t0 time.Time, 
 		}
 		perClass[f.Class]++
 		if perClass[f.Class] > 5 { // re-run / file only the first few per class
+			continue
+		}
+		if r.Isolate {
+			// never re-execute a possibly memory-exhausting input in the unprotected parent process
+			r.file(part, f, nil)
 			continue
 		}
 		// determinism: the same vector must fail the same way again
@@ -275,6 +281,18 @@ func (r *Run) account(part, bound string, o mc.Opts, st mc.Stats, t0 time.Time, 
 		r.ID, part, st.Execs, st.Points, st.NonTrivial, st.FailCount, st.Complete, ps.Wall, bound)
 }
 
+// stopRule: once a few hundred failures outside the known-finding classes were
+// seen the verdict is settled; stop exploring (the run reports exhaustive:false).
+func (r *Run) stopRule(o *mc.Opts) {
+	if o.StopAfter == 0 {
+		o.StopAfter = 500
+	}
+	o.Unknown = func(class string) bool {
+		_, known := r.known[class]
+		return !known || class == ""
+	}
+}
+
 // onHang: an execution that does not terminate is a violation (the code under
 // test loops forever on this input); the process cannot recover, so it reports
 // and exits.
@@ -309,6 +327,7 @@ func (r *Run) ExploreSharded(part, bound string, o mc.Opts, n int, body func(*mc
 	if r.shardN > 0 { // child
 		o.Workers = 1
 		o.OnHang = r.onHang(part)
+		r.stopRule(&o)
 		if jp := os.Getenv("VERIF_JOURNAL"); jp != "" {
 			jf, err := os.OpenFile(jp, os.O_CREATE|os.O_RDWR|os.O_TRUNC, 0o644)
 			if err == nil {
